@@ -143,7 +143,7 @@ def tryOp (x : Sim) (tid : Nat) (p : POp) : Sim × Option POp :=
     | none => ({ x with bad := true }, none)
     | some .direct => ({ x with insts := (i, .direct, kind) :: x.insts }.tag "mkSdk", none)
     | some (.ph m) =>
-      match step false x.ms tid (.mk m) with
+      match step false x.ms tid (.mk m kind) with
       | some s' => ({ x with ms := s', insts := (i, .ph x.ms.nI, kind) :: x.insts }.tag (if x.ms.mDel m then "mkDelegated" else "mkPlaceholder"), none)
       | none => (x.tag "blocked:K", some p)
   | .R c k is =>
@@ -172,7 +172,7 @@ def tryOp (x : Sim) (tid : Nat) (p : POp) : Sim × Option POp :=
     | some s' => ({ x with ms := s' }.tag tg, none)
     | none => (x.tag "blocked:Ucall", some p)
   | .T t =>
-    match step false x.ts tid (.mk 0) with
+    match step false x.ts tid (.mk 0 0) with
     | some s' => ({ x with ts := s', tracers := (t, x.ts.nI) :: x.tracers }.tag (if x.ts.mDel 0 then "tracerSdk" else "tracerPlaceholder"), none)
     | none => (x.tag "blocked:T", some p)
   | .IM =>
